@@ -12,15 +12,19 @@
    usage : c08_driver <scratch-dir>          (CA files are written there)
    input : "<kind> <mode> <entry> <ca> [silent_ms]"
              kind  : valid wrongname partial expired notyet untrusted selfsigned fullwild silent
+                     chainok (root -> intermediate -> leaf) chainexp (root -> EXPIRED intermediate -> leaf)
              mode  : T (trust flag) | N (no callback) | A (callback accepts) | R (callback rejects)
                      | S<digits> (scripted answer per invocation: digit value is returned; 0 once exhausted)
-             entry : starttls | legacy
+                     | P<r> (accept only the certificate of role r: 0 leaf, 1 intermediate, 2 root) | Q<r> (reject only that)
+             entry : starttls | legacy, optionally followed by +m (XMPP_CONN_FLAG_MANDATORY_TLS)
              ca    : ca | noca | badca (non-existent file) | cadir (hashed directory)
    output: one line
      cfg=<mode>/<cb>/<hostflags>/<host>   what SSL_connect saw: SSL_get_verify_mode, callback!=NULL,
                                           X509_VERIFY_PARAM hostflags, host == jid domain (1/0, - none)
      v=<p><r>,...                         verify callback invocations: preverify_ok and returned value
-     e=<depth>:<err>,...                  X509 error depth/code of each invocation (diagnostic)
+     e=<depth>:<err>:<role>,...           X509 error depth/code of each invocation and the role of the certificate the
+                                          verdict is about (X509_STORE_CTX_get_current_cert, read by the shim)
+     sh=<roles>                           role of the certificate the user handler was shown at each invocation
      cb=<n>:<cn>,...                      user certfail handler invocations (subject CN of the certificate)
      ts=<n>                               number of handshakes started (SSL_connect sequences)
      ev=C<sec>|D<sec>/<err>,...           connection events with xmpp_conn_is_secured at that moment (and the error code
@@ -62,10 +66,12 @@ static long now_ms(void)
 }
 
 /* ------------------------------------------------------------------ certificates */
-enum { K_VALID, K_WRONGNAME, K_PARTIAL, K_EXPIRED, K_NOTYET, K_UNTRUSTED, K_SELFSIGNED, K_FULLWILD, K_N };
-static const char *kind_names[] = {"valid", "wrongname", "partial", "expired", "notyet", "untrusted", "selfsigned", "fullwild"};
+enum { K_VALID, K_WRONGNAME, K_PARTIAL, K_EXPIRED, K_NOTYET, K_UNTRUSTED, K_SELFSIGNED, K_FULLWILD, K_CHAINOK, K_CHAINEXP, K_N };
+static const char *kind_names[] = {"valid", "wrongname", "partial", "expired", "notyet", "untrusted", "selfsigned", "fullwild", "chainok", "chainexp"};
 static EVP_PKEY *ca_key, *ca2_key, *leaf_key[K_N];
 static X509 *ca_crt, *ca2_crt, *leaf_crt[K_N];
+static EVP_PKEY *int_key, *intx_key;
+static X509 *int_crt, *intx_crt, *chain_crt[K_N]; /* intermediate sent along with the leaf */
 
 static EVP_PKEY *mk_key(void) { return EVP_EC_gen("P-256"); }
 
@@ -125,6 +131,14 @@ static void mint_all(const char *dir)
     leaf_crt[K_UNTRUSTED] = mk_cert("leaf-untrusted", "DNS:" DOMAIN, leaf_key[K_UNTRUSTED], ca2_crt, ca2_key, -DAY, 30 * DAY, 0);
     leaf_crt[K_SELFSIGNED] = mk_cert("leaf-selfsigned", "DNS:" DOMAIN, leaf_key[K_SELFSIGNED], NULL, NULL, -DAY, 30 * DAY, 0);
     leaf_crt[K_FULLWILD] = mk_cert("leaf-fullwild", "DNS:*.example.com", leaf_key[K_FULLWILD], ca_crt, ca_key, -DAY, 30 * DAY, 0);
+    /* chains root -> intermediate -> leaf: the intermediate is valid, or expired last month */
+    int_key = mk_key(); intx_key = mk_key();
+    int_crt = mk_cert("verif inter valid", NULL, int_key, ca_crt, ca_key, -DAY, 30 * DAY, 1);
+    intx_crt = mk_cert("verif inter expired", NULL, intx_key, ca_crt, ca_key, -60 * DAY, -30 * DAY, 1);
+    leaf_crt[K_CHAINOK] = mk_cert("leaf-chainok", "DNS:" DOMAIN, leaf_key[K_CHAINOK], int_crt, int_key, -DAY, 30 * DAY, 0);
+    leaf_crt[K_CHAINEXP] = mk_cert("leaf-chainexp", "DNS:" DOMAIN, leaf_key[K_CHAINEXP], intx_crt, intx_key, -DAY, 30 * DAY, 0);
+    chain_crt[K_CHAINOK] = int_crt;
+    chain_crt[K_CHAINEXP] = intx_crt;
 
     mkdir(dir, 0755);
     snprintf(ca_file, sizeof ca_file, "%s/ca-%d.pem", dir, (int)getpid());
@@ -159,19 +173,36 @@ static struct {
     int mode, has_cb, host_match;
     unsigned hostflags;
     int (*orig_cb)(int, X509_STORE_CTX *);
-    int nv, pre[MAXV], ret[MAXV], depth[MAXV], err[MAXV];
+    int nv, pre[MAXV], ret[MAXV], depth[MAXV], err[MAXV], role[MAXV];
     int calls, last_err;
     long t_first, t_last_ret;
     unsigned char cw[2][2048]; size_t ncw[2]; /* plaintext written by the library with send(): before / after the handshake began */
 } obs;
 
+static int role_of_cn(const char *cn)
+{
+    if (!cn) return 9;
+    if (!strncmp(cn, "leaf-", 5)) return 0;
+    if (!strncmp(cn, "verif inter", 11)) return 1;
+    if (!strncmp(cn, "verif ", 6)) return 2;
+    return 9;
+}
+static int role_of_x509(X509 *c)
+{
+    char cn[128] = "";
+    if (!c) return 9;
+    X509_NAME_get_text_by_NID(X509_get_subject_name(c), NID_commonName, cn, sizeof cn);
+    return role_of_cn(cn);
+}
+
 static int log_verify(int pre, X509_STORE_CTX *x)
 {
     int depth = X509_STORE_CTX_get_error_depth(x);
     int err = X509_STORE_CTX_get_error(x);
+    int role = role_of_x509(X509_STORE_CTX_get_current_cert(x)); /* the certificate the verdict is about */
     int r = obs.orig_cb ? obs.orig_cb(pre, x) : pre;
     if (obs.nv < MAXV) {
-        obs.pre[obs.nv] = pre; obs.ret[obs.nv] = r; obs.depth[obs.nv] = depth; obs.err[obs.nv] = err;
+        obs.pre[obs.nv] = pre; obs.ret[obs.nv] = r; obs.depth[obs.nv] = depth; obs.err[obs.nv] = err; obs.role[obs.nv] = role;
         obs.nv++;
     }
     return r;
@@ -220,6 +251,7 @@ static struct {
     const char *script; /* answers for A/R/S modes */
     int n;
     char who[256];
+    char shown[64]; /* role (0 leaf, 1 intermediate, 2 root) of each certificate the handler was shown */
     char ev[128];
     int ndisc, secmax, secfin;
 } usr;
@@ -232,6 +264,12 @@ static int certfail(const xmpp_tlscert_t *cert, const char *const errormsg)
     size_t l = strlen(usr.who);
     (void)errormsg;
     snprintf(usr.who + l, sizeof(usr.who) - l, "%s%s", usr.n ? "," : "", cn ? cn + 3 : "?");
+    {
+        int role = role_of_cn(cn ? cn + 3 : NULL);
+        if ((size_t)usr.n + 1 < sizeof usr.shown) usr.shown[usr.n] = (char)('0' + role);
+        if (usr.script[0] == 'P') ans = (usr.script[1] - '0' == role) ? 1 : 0;      /* accept only the pinned one */
+        else if (usr.script[0] == 'Q') ans = (usr.script[1] - '0' == role) ? 0 : 1; /* reject only that one */
+    }
     if (usr.script[0] == 'A') ans = 1;
     else if (usr.script[0] == 'R') ans = 0;
     else if (usr.script[0] == 'S') {
@@ -293,6 +331,7 @@ static int srv_until(int fd, SSL *ssl, unsigned char *buf, size_t *n, size_t cap
         int p = contains(buf, *n, *mark, a), q;
         if (p >= 0 && (q = contains(buf, *n, (size_t)p, b)) >= 0) { *mark = (size_t)q; return 1; }
         if (strcmp(a, "</stream:stream") && contains(buf, *n, *mark, "</stream:stream>") >= 0) return 0; /* client gave up */
+        if (!strcmp(a, "<starttls") && contains(buf, *n, *mark, "</auth>") >= 0) return 0; /* client authenticates without TLS */
         if (*n >= cap) return 0;
         {
             int r = ssl ? SSL_read(ssl, buf + *n, (int)(cap - *n)) : (int)recv(fd, buf + *n, cap - *n, 0);
@@ -330,7 +369,8 @@ static void *server_main(void *arg)
 
     if (!s->legacy) {
         if (!srv_until(fd, NULL, s->clr, &s->nclr, sizeof s->clr, &mark, "<stream:stream", ">")) goto out;
-        srv_send(fd, NULL, HDR "<stream:features><starttls xmlns='urn:ietf:params:xml:ns:xmpp-tls'><required/></starttls>"
+        srv_send(fd, NULL, HDR "<stream:features><starttls xmlns='urn:ietf:params:xml:ns:xmpp-tls'/>"
+                              "<mechanisms xmlns='urn:ietf:params:xml:ns:xmpp-sasl'><mechanism>PLAIN</mechanism></mechanisms>"
                               "</stream:features>");
         if (!srv_until(fd, NULL, s->clr, &s->nclr, sizeof s->clr, &mark, "<starttls", ">")) goto out;
         srv_send(fd, NULL, "<proceed xmlns='urn:ietf:params:xml:ns:xmpp-tls'/>");
@@ -344,6 +384,7 @@ static void *server_main(void *arg)
     }
     sctx = SSL_CTX_new(TLS_server_method());
     SSL_CTX_use_certificate(sctx, leaf_crt[s->kind]);
+    if (chain_crt[s->kind]) SSL_CTX_add1_chain_cert(sctx, chain_crt[s->kind]);
     SSL_CTX_use_PrivateKey(sctx, leaf_key[s->kind]);
     ssl = SSL_new(sctx);
     SSL_set_fd(ssl, fd);
@@ -465,7 +506,7 @@ int main(int argc, char **argv)
         memset(&usr, 0, sizeof usr);
         usr.script = mode_s;
         srv = calloc(1, sizeof *srv);
-        srv->lfd = lfd; srv->legacy = !strcmp(entry_s, "legacy"); srv->silent_ms = silent_ms; srv->kind = kind; srv->hs = -1;
+        srv->lfd = lfd; srv->legacy = !strncmp(entry_s, "legacy", 6); srv->silent_ms = silent_ms; srv->kind = kind; srv->hs = -1;
         pthread_create(&th, NULL, server_main, srv);
 
         conn = xmpp_conn_new(ctx);
@@ -473,8 +514,9 @@ int main(int argc, char **argv)
         xmpp_conn_set_pass(conn, "secret");
         if (mode_s[0] == 'T') flags |= XMPP_CONN_FLAG_TRUST_TLS;
         if (srv->legacy) flags |= XMPP_CONN_FLAG_LEGACY_SSL;
+        if (strstr(entry_s, "+m")) flags |= XMPP_CONN_FLAG_MANDATORY_TLS;
         xmpp_conn_set_flags(conn, flags);
-        if (mode_s[0] == 'A' || mode_s[0] == 'R' || mode_s[0] == 'S') xmpp_conn_set_certfail_handler(conn, certfail);
+        if (strchr("ARSPQ", mode_s[0])) xmpp_conn_set_certfail_handler(conn, certfail);
         if (!strcmp(ca_s, "ca")) xmpp_conn_set_cafile(conn, ca_file);
         else if (!strcmp(ca_s, "badca")) xmpp_conn_set_cafile(conn, bad_file);
         else if (!strcmp(ca_s, "cadir")) xmpp_conn_set_capath(conn, ca_dir);
@@ -506,8 +548,8 @@ int main(int argc, char **argv)
         for (i = 0; i < obs.nv; i++) printf("%s%d%d", i ? "," : "", obs.pre[i], obs.ret[i]);
         printf(" e=");
         if (!obs.nv) printf("-");
-        for (i = 0; i < obs.nv; i++) printf("%s%d:%d", i ? "," : "", obs.depth[i], obs.err[i]);
-        printf(" cb=%d:%s ts=%d", usr.n, usr.n ? usr.who : "-", obs.handshakes);
+        for (i = 0; i < obs.nv; i++) printf("%s%d:%d:%d", i ? "," : "", obs.depth[i], obs.err[i], obs.role[i]);
+        printf(" cb=%d:%s sh=%s ts=%d", usr.n, usr.n ? usr.who : "-", usr.n ? usr.shown : "-", obs.handshakes);
         printf(" ev=%s sec=%d/%d", usr.ev[0] ? usr.ev : "-", usr.secmax, usr.secfin);
         tokens(srv->clr, srv->nclr, tc, sizeof tc);
         tokens(srv->enc, srv->nenc, tt, sizeof tt);
